@@ -6,7 +6,7 @@ RULE = ("TLC explores the damage/restore/volume/Verify/Repair graph of Par2Archi
         "C14_SuccessIsFixpoint, C14_FailureKeepsOrRestores, C14_VerifyPure on every transition; every Verify/Repair edge "
         "of the closed graph is replayed on the real code (successful repairs are followed by a real Verify and a real "
         "second Repair whose write calls are logged through the H2 file-system hook); seeded random walks / large sets "
-        "are judged with the same clauses; convergence includes the within-capacity clauses (once the recovery files present suffice, Repair succeeds).")
+        "are judged with the same clauses; the convergence statement itself is model-checked as a temporal formula (MC_Par2Live: frozen, within capacity and solvable leads to all files intact for good, under weak fairness of Repair only); convergence includes the within-capacity clauses (once the recovery files present suffice, Repair succeeds).")
 ASSUME = ["every disk state of the closed graph is reachable by damage events alone, so replaying each edge from a "
           "materialised source state covers every finite history (no state survives between gopar calls except the directory)"]
 
@@ -18,6 +18,17 @@ def run(ctx):
         return archive.combine(archive.small_scope(ctx, ["C14.", "C01.within_capacity"]),
                                archive.big_sets(ctx, ["C14.", "C01.within_capacity"], "c14"),
                                archive.par1_family(ctx, ["C14.", "C04.within_capacity"]))
+    # convergence as a temporal formula: frozen /\ within capacity /\ solvable ~> [] all intact, under WF(Repair)
+    for inst in (["i1", "i4"] if ctx.thorough else ["i1"]):
+        ctx.mc("MC_Par2Live", "MC_Par2Live_%s.cfg" % inst, "C14 convergence (leads-to under weak fairness of Repair), instance " + inst,
+               workers=8, timeout=2400)
+    if ctx.selftest:
+        # non-vacuity: without fairness the same property must be violated
+        r = vlib.tlc(ctx.work.sub("mc-live-nofair"), "MC_Par2Live", "MC_Par2Live_nofair.cfg", workers=4, timeout=900)
+        bad = not any("Temporal property Converges was violated" in l for l in r.lines)
+        ctx.extra.setdefault("binding_selftest", []).append({"module": "MC_Par2Live", "corruption": "fairness removed", "rejected": not bad})
+        if bad:
+            raise vlib.Inconclusive("liveness self-test: Converges holds even without fairness (vacuous)")
     events, verdicts = once()
     ctx.samples = archive.pick_samples(events)
     return ctx.finish(verdicts, events, RULE, ASSUME, rerun=once)
